@@ -19,7 +19,9 @@ Fillers == << <<32>>, <<10>>, <<9, 9>>, <<45, 45, 32, 99, 10>>, <<45, 45, 40, 99
               <<45, 45, 32, 99, 10, 45, 45, 40, 100, 41, 45, 45, 10>>,
               \* comment edges: `)` and `-` inside a block comment right before its end, empty comments, three dashes
               <<45, 45, 40, 41, 41, 45, 45>>, <<45, 45, 40, 41, 45, 41, 45, 45>>, <<45, 45, 40, 45, 41, 45, 45>>, <<45, 45, 40, 41, 45, 45>>,
-              <<45, 45, 45, 120, 10>>, <<45, 45, 10>>, <<45, 45, 40, 41, 45, 32, 41, 45, 45>> >>
+              <<45, 45, 45, 120, 10>>, <<45, 45, 10>>, <<45, 45, 40, 41, 45, 32, 41, 45, 45>>,
+              \* the other blank characters: form feed, vertical tab, carriage return
+              <<12>>, <<11>>, <<13, 10>>, <<32, 12, 9, 11>> >>
 
 VARIABLES pi, src, edit, ot
 lvars == <<pi, src, edit, ot>>
